@@ -608,7 +608,8 @@ Exec(s, env, st) ==
 (* index / op-assignment:  target is var | idx ;  op is "=" or an arithmetic operator *)
 AssignTo(s, env, st, dummy) ==
     IF s.target.k = "var" THEN
-        LET c == LookupOwn(env, s.target.n) IN
+        \* `x op= e` updates the variable the name denotes lexically: a local of this function, else the captured one
+        LET c == IF s.op = "=" THEN LookupOwn(env, s.target.n) ELSE Lookup(env, s.target.n) IN
         IF c = 0 THEN ER(env, FailWith(st, "type"))
         ELSE LET r == Eval(s.e, env, st) IN
              IF ~IsOk(r.st) THEN ER(env, r.st)
